@@ -22,7 +22,12 @@ use std::collections::hash_map::RandomState;
 use std::collections::HashMap;
 use std::hash::{BuildHasher, Hash};
 use std::marker::PhantomData;
+#[cfg(transparencies_stretto_verif)]
+use std::sync::atomic::Ordering;
+#[cfg(not(transparencies_stretto_verif))]
 use std::sync::atomic::{AtomicBool, Ordering};
+#[cfg(transparencies_stretto_verif)]
+use stretto_sim_rt::sync::AtomicBool;
 use std::sync::Arc;
 use std::time::Duration;
 
